@@ -51,3 +51,128 @@ pub fn c16_neg_add() {
     assert!(t.midgame().0 == a - c && t.endgame().0 == b - d);
     kani::cover!(a < 0 && c > 0);
 }
+
+// ---------------------------------------------------------------------------------------
+// colour symmetry and boundedness of the evaluation terms, real parameter tables loaded
+// ---------------------------------------------------------------------------------------
+use super::dump;
+use super::pos::{self, BPos, B, K, N, P, Q, R};
+use crate::engine::eval::{self, piece_square_tables, verif_access as ea, IncrementalEvalFields};
+
+#[cfg(not(test))]
+fn load_tables() {
+    unsafe { piece_square_tables::TABLES = dump::PST; }
+    ea::pawns::load(&dump::PP_MASKS, &dump::PP_PST);
+}
+#[cfg(test)]
+fn load_tables() { crate::init(); }
+
+fn bound_officers(p: &BPos, per_kind: u32) {
+    let mut c = 0;
+    while c < 2 { let mut k = 1; while k < 5 { kani::assume(p.pcs[c][k].count_ones() <= per_kind); k += 1; } c += 1; }
+}
+
+#[cfg(test)]
+fn show(p: &BPos) { println!("REPLAY-CASE {{\"fen\":\"{}\",\"mirror\":\"{}\"}}", pos::fen_of(p), pos::fen_of(&pos::mirror(p))); }
+
+/// piece-square + material term: term(mirror(P)) == -term(P); halves stay inside i16 for reachable material
+#[kani::proof]
+#[kani::unwind(66)]
+pub fn c16_sym_pst() {
+    load_tables();
+    let p = pos::any_valid();
+    kani::assume(pos::legal_material(&p));
+    #[cfg(test)] show(&p);
+    let (g, gm) = (pos::game_of(&p), pos::game_of(&pos::mirror(&p)));
+    let a = piece_square_tables::eval(&g.board);
+    let b = piece_square_tables::eval(&gm.board);
+    assert!(-a == b);
+    assert!(a.midgame().0 as i32 == -(b.midgame().0 as i32) && a.endgame().0 as i32 == -(b.endgame().0 as i32));
+    kani::cover!(a.midgame().0 > 500);
+    std::mem::forget(g);
+    std::mem::forget(gm);
+}
+
+/// game phase counter is colour-blind
+#[kani::proof]
+#[kani::unwind(66)]
+pub fn c16_sym_phase() {
+    let p = pos::any_valid();
+    #[cfg(test)] show(&p);
+    let (g, gm) = (pos::game_of(&p), pos::game_of(&pos::mirror(&p)));
+    let (a, b) = (IncrementalEvalFields::init(&g.board), IncrementalEvalFields::init(&gm.board));
+    assert!(a.phase_value == b.phase_value);
+    // and it is what the statement calls the game phase: 1 per minor, 2 per rook, 4 per queen
+    let cnt = |k: usize| (p.pcs[0][k] | p.pcs[1][k]).count_ones() as i16;
+    assert!(a.phase_value == cnt(N) + cnt(B) + 2 * cnt(R) + 4 * cnt(Q));
+    kani::cover!(a.phase_value > 24);
+    std::mem::forget(g);
+    std::mem::forget(gm);
+}
+
+/// bishop-pair term
+#[kani::proof]
+pub fn c16_sym_material() {
+    let p = pos::any_valid();
+    #[cfg(test)] show(&p);
+    let (g, gm) = (pos::game_of(&p), pos::game_of(&pos::mirror(&p)));
+    let mut t = ea::Trace::new();
+    let a = ea::material_eval::<false>(&g, &mut t);
+    let b = ea::material_eval::<false>(&gm, &mut t);
+    assert!(-a == b);
+    kani::cover!(a != PhasedEval::ZERO);
+    std::mem::forget(g);
+    std::mem::forget(gm);
+}
+
+/// passed-pawn term (real masks and table loaded)
+#[kani::proof]
+#[kani::unwind(10)]
+pub fn c16_sym_pawns() {
+    load_tables();
+    let p = pos::any_valid();
+    kani::assume(p.pcs[0][P].count_ones() <= 8 && p.pcs[1][P].count_ones() <= 8);
+    #[cfg(test)] show(&p);
+    let (g, gm) = (pos::game_of(&p), pos::game_of(&pos::mirror(&p)));
+    let mut t = ea::Trace::new();
+    let a = ea::pawn_eval::<false>(&g, &mut t);
+    let b = ea::pawn_eval::<false>(&gm, &mut t);
+    assert!(-a == b);
+    kani::cover!(a != PhasedEval::ZERO);
+    std::mem::forget(g);
+    std::mem::forget(gm);
+}
+
+/// mobility / king-safety term, officers bounded (the term loops over them); geometry stubs
+pub fn sym_mobility(per_kind: u32) {
+    let p = pos::any_valid();
+    bound_officers(&p, per_kind);
+    #[cfg(test)] show(&p);
+    let (g, gm) = (pos::game_of(&p), pos::game_of(&pos::mirror(&p)));
+    let mut t = ea::Trace::new();
+    let a = ea::mobility_eval::<false>(&g, &mut t);
+    let b = ea::mobility_eval::<false>(&gm, &mut t);
+    assert!(-a == b);
+    kani::cover!(a != PhasedEval::ZERO);
+    std::mem::forget(g);
+    std::mem::forget(gm);
+}
+
+/// the whole evaluation from the mover's view: eval(mirror(P)) == eval(P); strictly inside the non-mate band; bounded material
+pub fn total(per_kind: u32, pawns: u32) {
+    load_tables();
+    let p = pos::any_valid();
+    bound_officers(&p, per_kind);
+    kani::assume(p.pcs[0][P].count_ones() <= pawns && p.pcs[1][P].count_ones() <= pawns);
+    #[cfg(test)] show(&p);
+    let (mut g, mut gm) = (pos::game_of(&p), pos::game_of(&pos::mirror(&p)));
+    g.incremental_eval = IncrementalEvalFields::init(&g.board);
+    gm.incremental_eval = IncrementalEvalFields::init(&gm.board);
+    let a = eval::eval(&g);
+    let b = eval::eval(&gm);
+    assert!(a == b);
+    assert!(a.0 > -31900 && a.0 < 31900);
+    kani::cover!(a.0 > 300);
+    std::mem::forget(g);
+    std::mem::forget(gm);
+}
